@@ -27,13 +27,14 @@ SPECS = [
     ('bdiag_left', True), ('bdiag_right', True), ('bdiag_left_T', True),
     ('diag_a', True), ('diag_m_axis0', True), ('diag_tree', True), ('diag_a_inv', True), ('diag_zero_inv', True),
     ('dense_complex', True), ('diag_complex', True), ('hom_complex', True), ('toep_os_short', False), ('k_int_times', True), ('k_float_times', True),
+    ('dense_stokes', True), ('diag_tree_mixed', True), ('hom_tree_mixed', True), ('hom_unit_widening', True), ('diag_blocks_paramfree', True),
     ('diag_2d', True), ('diag_5', True), ('diag_tree_neg', True), ('dense_widening', True), ('bdiag_widening', True),
     ('lazy_inv_spd', False), ('toast_obs', True), ('toast_obs_T', True),
 ]
 SPEC_NAMES = [s[0] for s in SPECS]
 EXACT = dict(SPECS)
 NO_TRANSPOSE = {'lazy_inv_spd'}          # the library does not support transposes of the iterative inverse
-SINGLE_ONLY = {'toep_os', 'toep_batched', 'toep_os_short', 'dense_widening', 'bdiag_widening', 'dense_complex', 'diag_complex', 'hom_complex'}  # widening: float16 data would overflow in products  # ~100 ms per application (fori_loop re-traced): singles only; C09 owns the methods
+SINGLE_ONLY = {'toep_os', 'toep_batched', 'toep_os_short', 'dense_widening', 'bdiag_widening', 'dense_complex', 'diag_complex', 'hom_complex', 'diag_tree_mixed', 'hom_tree_mixed', 'hom_unit_widening'}  # widening: float16 data would overflow in products  # ~100 ms per application (fori_loop re-traced): singles only; C09 owns the methods
 MASKED = {'index_mask', 'pack_iqu', 'pack_iqu_T'}  # boolean-mask selection: excluded from the filter_jit-as-argument claim
 
 _MEMO: dict = {}
@@ -259,6 +260,16 @@ def _build(name, dt):
         return 2 * P()
     if name == 'k_float_times':
         return 2.0 * P()
+    if name == 'dense_stokes':   # einsum blocks applied to every component of a Stokes container
+        return DenseBlockDiagonalOperator(arr([[1, 2], [3, 5]]), stokes('IQU', 2), 'ij,j->i')
+    if name == 'hom_tree_mixed':
+        return HomothetyOperator(jnp.asarray(-0.5, jnp.float16), {'u': jax.ShapeDtypeStruct((2,), jnp.float16), 'v': jax.ShapeDtypeStruct((2, 3), D)})
+    if name == 'hom_unit_widening':   # a strongly typed factor exactly equal to one, on narrower data
+        return HomothetyOperator(jnp.asarray(1.0, D), jax.ShapeDtypeStruct((2,), jnp.float16))
+    if name == 'diag_blocks_paramfree':   # blocks without any array parameter that are not identities
+        return BlockDiagonalOperator([HWPOperator(stokes('IQU', 2)), RavelOperator(in_structure=m), HWPOperator(stokes('QU', 2))])
+    if name == 'diag_tree_mixed':   # leaves of different dtypes: each keeps its own dtype
+        return DiagonalOperator(jnp.asarray([2, -4], jnp.float16), axis_destination=0, in_structure={'u': jax.ShapeDtypeStruct((2,), jnp.float16), 'v': jax.ShapeDtypeStruct((2, 3), D)})
     if name == 'diag_5':   # same space as the Toeplitz specimens: symmetric-tagged operators that do not commute
         return DiagonalOperator(arr([2, -1, 4, 0.5, 3]), in_structure=sds(5))
     if name == 'diag_tree_neg':   # negative axis on leaves of different rank: it resolves to a different axis per leaf
